@@ -19,7 +19,7 @@ pub const WINDOW_WIDTHS: [usize; 4] = [2, 4, 8, 16];
 pub const TAPE_PROBE_LEN: usize = 4096;
 pub const TAPE_SLACK: usize = 16;
 /// quick tier: window tapes only for builders consuming at most this many tape bytes
-pub const QUICK_WINDOW_MAX_TAPE: usize = 96;
+pub const QUICK_WINDOW_MAX_TAPE: usize = 160;
 
 pub trait Subject: Streamable + ToJsonDict + FromJsonDict + Debug + PartialEq + Send + Sync + Sized + 'static {}
 impl<T: Streamable + ToJsonDict + FromJsonDict + Debug + PartialEq + Send + Sync + Sized + 'static> Subject for T {}
@@ -44,12 +44,28 @@ pub struct Spec<T> {
     pub reference: Option<fn(&T) -> J>,
 }
 
-#[derive(Clone, Copy, Debug)]
+#[derive(Clone, Debug)]
 pub struct JobCfg {
     pub thorough: bool,
     /// this job handles the tape positions p with p % parts == part (zero tape and letters: part 0)
     pub part: usize,
     pub parts: usize,
+    /// second level: the tape already carries this write (a first deviation that changed the JSON
+    /// shape) and has this length; the job enumerates the second write behind it
+    pub first: Option<(usize, Vec<u8>, usize)>,
+}
+
+impl JobCfg {
+    pub fn to_serde(&self) -> Value {
+        json!({"thorough": self.thorough, "part": self.part, "parts": self.parts, "first": self.first.as_ref().map(|(p, w, n)| json!([p, hex::encode(w), n]))})
+    }
+    pub fn from_serde(v: &Value) -> Option<JobCfg> {
+        let first = match &v["first"] {
+            Value::Null => None,
+            f => Some((f[0].as_u64()? as usize, hex::decode(f[1].as_str()?).ok()?, f[2].as_u64()? as usize)),
+        };
+        Some(JobCfg { thorough: v["thorough"].as_bool()?, part: v["part"].as_u64()? as usize, parts: v["parts"].as_u64()? as usize, first })
+    }
 }
 
 // ---------------------------------------------------------------------------------------------
@@ -159,50 +175,88 @@ fn debug_hash<T: Debug>(v: &T) -> u64 {
 }
 
 pub struct Enumerated<T> {
-    pub tape_len: usize,
     /// tapes run (incl. the ones that produced nothing or a value seen before)
     pub tapes: u64,
     pub no_value: u64,
     pub duplicates: u64,
     /// distinct values in enumeration order
     pub values: Vec<(Src, T, u64)>,
+    /// values whose JSON shape is already known to the level above (never corruption bases)
+    pub known: Vec<T>,
+}
+
+/// tape bytes the builder consumes from a long zero tape carrying `writes`
+fn used_with<T>(g: Gen<T>, writes: &[(usize, Vec<u8>)]) -> usize {
+    let tape = make_tape(TAPE_PROBE_LEN, writes);
+    catch(|| {
+        let mut u = Unstructured::new(&tape);
+        let _ = g(&mut u);
+        TAPE_PROBE_LEN - u.len()
+    })
+    .unwrap_or(0)
+}
+
+pub fn second_level_len<T>(g: Gen<T>, pos: usize, w: &[u8]) -> usize {
+    (used_with(g, &[(pos, w.to_vec())]) + TAPE_SLACK).min(TAPE_PROBE_LEN)
 }
 
 pub fn enumerate<T: Subject>(spec: &Spec<T>, cfg: &JobCfg) -> Enumerated<T> {
-    let n = tape_len_of(spec.build);
-    let windows = cfg.thorough || n <= QUICK_WINDOW_MAX_TAPE + TAPE_SLACK;
-    let mut out = Enumerated { tape_len: n, tapes: 0, no_value: 0, duplicates: 0, values: Vec::new() };
+    let mut out = Enumerated { tapes: 0, no_value: 0, duplicates: 0, values: Vec::new(), known: Vec::new() };
     let mut seen: HashSet<u64> = HashSet::new();
-    let base_src = Src::Tape { len: n, writes: vec![] };
-    let base = run_tape(spec.build, &make_tape(n, &[]));
+    let n0 = tape_len_of(spec.build);
+    let base = run_tape(spec.build, &make_tape(n0, &[]));
     let base_hash = base.as_ref().map(debug_hash);
     if let Some(h) = base_hash {
         seen.insert(h);
     }
-    if cfg.part == 0 {
-        out.tapes += 1;
-        match base {
-            Some(v) => out.values.push((base_src, v, base_hash.unwrap())),
-            None => out.no_value += 1,
+    let (n, fixed, from): (usize, Vec<(usize, Vec<u8>)>, usize) = match &cfg.first {
+        None => (n0, vec![], 0),
+        Some((p, w, n)) => (*n, vec![(*p, w.clone())], p + w.len()),
+    };
+    match &cfg.first {
+        None => {
+            if cfg.part == 0 {
+                out.tapes += 1;
+                match base {
+                    Some(v) => out.values.push((Src::Tape { len: n0, writes: vec![] }, v, base_hash.unwrap())),
+                    None => out.no_value += 1,
+                }
+                for l in catch(spec.letters).unwrap_or_default() {
+                    out.tapes += 1;
+                    let h = debug_hash(&l.value);
+                    if seen.insert(h) {
+                        out.values.push((Src::Letter(l.label), l.value, h));
+                    } else {
+                        out.duplicates += 1;
+                    }
+                }
+            } else if let Some(b) = base {
+                // the shape of the zero-tape value is handled by part 0
+                out.known.push(b);
+            }
         }
-        for l in catch(spec.letters).unwrap_or_default() {
-            out.tapes += 1;
-            let h = debug_hash(&l.value);
-            if seen.insert(h) {
-                out.values.push((Src::Letter(l.label), l.value, h));
-            } else {
-                out.duplicates += 1;
+        Some(_) => {
+            if let Some(b) = base {
+                out.known.push(b);
+            }
+            if let Some(f) = run_tape(spec.build, &make_tape(n, &fixed)) {
+                seen.insert(debug_hash(&f));
+                out.known.push(f);
             }
         }
     }
-    let positions: Vec<usize> = (0..n).filter(|p| p % cfg.parts == cfg.part).collect();
+    // quick tier: integer windows only for builders consuming little tape (first level only)
+    let windows = cfg.thorough || n0 <= QUICK_WINDOW_MAX_TAPE + TAPE_SLACK;
+    let positions: Vec<usize> = (from..n).filter(|p| p % cfg.parts == cfg.part).collect();
     let per_pos: Vec<Vec<(Src, Option<(T, u64)>)>> = positions
         .par_iter()
         .map(|&pos| {
             writes_at(pos, n, windows)
                 .into_iter()
                 .map(|w| {
-                    let src = Src::Tape { len: n, writes: vec![(pos, w)] };
+                    let mut writes = fixed.clone();
+                    writes.push((pos, w));
+                    let src = Src::Tape { len: n, writes };
                     let v = build(spec, &src).map(|v| {
                         let h = debug_hash(&v);
                         (v, h)
@@ -255,6 +309,9 @@ pub struct Acc {
     pub int_ranges: BTreeMap<String, u64>,
     pub sample: Option<Value>,
     pub machinery: Vec<String>,
+    /// first level only: the one-write tapes that produced a new JSON shape (position, bytes,
+    /// tape length for the second level)
+    pub firsts: Vec<(usize, Vec<u8>, usize)>,
 }
 
 impl Acc {
@@ -283,6 +340,7 @@ impl Acc {
             "int_ranges": self.int_ranges,
             "sample": self.sample,
             "machinery": self.machinery,
+            "firsts": self.firsts.iter().map(|(p, w, n)| json!([p, hex::encode(w), n])).collect::<Vec<_>>(),
         })
     }
     pub fn from_serde(v: &Value) -> Option<Acc> {
@@ -301,6 +359,7 @@ impl Acc {
             int_ranges: map(&v["int_ranges"]),
             sample: if v["sample"].is_null() { None } else { Some(v["sample"].clone()) },
             machinery: v["machinery"].as_array()?.iter().filter_map(|s| s.as_str().map(str::to_string)).collect(),
+            firsts: v["firsts"].as_array()?.iter().filter_map(|f| Some((f[0].as_u64()? as usize, hex::decode(f[1].as_str()?).ok()?, f[2].as_u64()? as usize))).collect(),
         })
     }
 }
@@ -335,6 +394,34 @@ fn observe_json<T: Subject>(py: Python<'_>, v: &T) -> Result<(Py<PyAny>, J), (&'
             let j = jtree::from_py(o.bind(py));
             Ok((o, j))
         }
+    }
+}
+
+/// Does the tree hold a versioned struct (ProofOfSpace, FullBlock, UnfinishedBlock: the structs
+/// with a `version` field) that the struct comments in /repo call invalid: a version other than
+/// 0 / 1, or a proof of space of version 1 (the v2 format) without exactly one of pool public
+/// key / pool contract puzzle hash? Neither a wire form nor hash() is defined for those.
+pub fn pos_malformed(j: &J) -> bool {
+    match j {
+        J::List(l) => l.iter().any(pos_malformed),
+        J::Dict(d) => {
+            let f = |k: &str| d.iter().find(|(n, _)| n == k).map(|(_, v)| v);
+            if let Some(ver) = f("version") {
+                match ver {
+                    J::Int(s) if s == "0" => {}
+                    J::Int(s) if s == "1" => {
+                        if let (Some(pk), Some(ph), Some(_)) = (f("pool_public_key"), f("pool_contract_puzzle_hash"), f("plot_index")) {
+                            if (*pk == J::Null) == (*ph == J::Null) {
+                                return true;
+                            }
+                        }
+                    }
+                    _ => return true,
+                }
+            }
+            d.iter().any(|(_, v)| pos_malformed(v))
+        }
+        _ => false,
     }
 }
 
@@ -384,8 +471,12 @@ pub fn check_value<T: Subject>(py: Python<'_>, spec: &Spec<T>, src: &Src, v: &T,
     let enc = catch(|| Streamable::to_bytes(v).ok());
     let hv = catch(|| Streamable::hash(v));
     let mut pos_hash_panic = false;
+    let malformed_pos = pos_malformed(&j);
     if let Err(p) = &hv {
-        if p.contains(POS_HASH_PANIC) {
+        if malformed_pos {
+            // hash() is undefined for this value; the round trip must leave it undefined
+            pos_hash_panic = true;
+        } else if p.contains(POS_HASH_PANIC) {
             pos_hash_panic = true;
             acc.violation("panic/pos-v2-hash", case(), format!("{head}: hash() of the value itself panics ({p}); value {}", dbg_short(v)));
         } else {
@@ -460,7 +551,7 @@ pub fn check_value<T: Subject>(py: Python<'_>, spec: &Spec<T>, src: &Src, v: &T,
     }
     acc.bump(match (ok, pos_hash_panic, enc.as_ref().map(Option::is_some).unwrap_or(false)) {
         (false, _, _) => "value/VIOLATION",
-        (true, true, _) => "value/roundtrip-ok/hash-panics-before-and-after(pos-v2)",
+        (true, true, _) => "value/roundtrip-ok/hash-undefined-before-and-after(invalid-versioned-struct)",
         (true, false, true) => "value/roundtrip-ok/bytes+hash-equal",
         (true, false, false) => "value/roundtrip-ok/no-wire-form(to_bytes-err-before-and-after)",
     });
@@ -520,9 +611,17 @@ pub fn check_corruption<T: Subject>(py: Python<'_>, spec: &Spec<T>, src: &Src, j
                 Ok((o2, j2)) => {
                     log.push_str(&format!("to_json_dict of the accepted value: node {}\n", node(&j2)));
                     if jtree::denote_eq(&j2, &bad) {
-                        // the accepted value must itself survive the round trip
+                        // the accepted value must itself survive the round trip, and what JSON
+                        // lets in must be something the wire format lets in as well
+                        let wire = if pos_malformed(&j2) { None } else { wire_problem(&v2) };
                         match catch(|| T::from_json_dict(o2.bind(py))) {
-                            Ok(Ok(v3)) if catch(|| v3 == v2) == Ok(true) => Verdict::SameMeaning,
+                            Ok(Ok(v3)) if catch(|| v3 == v2) == Ok(true) => match wire {
+                                None => Verdict::SameMeaning,
+                                Some(w) => {
+                                    acc.violation(&format!("corrupt/{class}/accepted-value-has-no-valid-wire-form"), case(), format!("{head}: the node was {} and was changed to {}; from_json_dict accepted it as {}, but {w}", node(j), node(&bad), dbg_short(&v2)));
+                                    Verdict::Violation
+                                }
+                            },
                             other => {
                                 acc.violation(
                                     &format!("corrupt/{class}/accepted-value-does-not-roundtrip"),
@@ -566,6 +665,24 @@ pub fn check_corruption<T: Subject>(py: Python<'_>, spec: &Spec<T>, src: &Src, j
         out.push_str(&format!("verdict {verdict:?}\n"));
     }
     Some(verdict)
+}
+
+/// A value read from JSON that to_bytes can encode must be readable by from_bytes, and re-encode
+/// to the same bytes (relation between the JSON reader and the wire reader of /repo).
+fn wire_problem<T: Subject>(v: &T) -> Option<String> {
+    let enc = match catch(|| Streamable::to_bytes(v)) {
+        Err(p) => return Some(format!("to_bytes panics: {p}")),
+        Ok(Err(_)) => return None, // no wire form at all (e.g. a block version without one)
+        Ok(Ok(b)) => b,
+    };
+    match catch(|| <T as Streamable>::from_bytes(&enc)) {
+        Err(p) => Some(format!("from_bytes of its own encoding panics: {p}")),
+        Ok(Err(e)) => Some(format!("from_bytes rejects its own encoding {} ({e:?})", jtree::clip(&hex::encode(&enc), 300))),
+        Ok(Ok(back)) => match catch(|| Streamable::to_bytes(&back)) {
+            Ok(Ok(b2)) if b2 == enc => None,
+            _ => Some(format!("from_bytes of its own encoding {} re-encodes differently", jtree::clip(&hex::encode(&enc), 300))),
+        },
+    }
 }
 
 // ---- integer ranges (information) ------------------------------------------------------------
@@ -631,13 +748,23 @@ pub fn run_job<T: Subject>(spec: &Spec<T>, cfg: &JobCfg) -> Acc {
     let alphabet = jtree::int_alphabet();
     Python::attach(|py| {
         let mut shapes: HashSet<u64> = HashSet::new();
+        for v in &en.known {
+            if let Ok((_, j)) = observe_json(py, v) {
+                shapes.insert(fxhash(&jtree::shape(&j)));
+            }
+        }
         for (src, v, h) in &en.values {
             acc.distinct.push(fxhash(&(spec.name, h)));
             // first pass without the text round trip; bases get it below
             let Some(j) = check_value(py, spec, src, v, false, &mut acc, None) else { continue };
-            let is_base = shapes.insert(fxhash(&jtree::shape(&j))) || matches!(src, Src::Letter(_));
-            if !is_base {
+            let new_shape = shapes.insert(fxhash(&jtree::shape(&j)));
+            if !(new_shape || matches!(src, Src::Letter(_))) {
                 continue;
+            }
+            if let (None, true, Src::Tape { writes, .. }) = (&cfg.first, cfg.thorough, src) {
+                if let [(p, w)] = writes.as_slice() {
+                    acc.firsts.push((*p, w.clone(), second_level_len(spec.build, *p, w)));
+                }
             }
             acc.bases += 1;
             // the same value once more, now also through JSON text (not counted as a new value)
@@ -650,7 +777,7 @@ pub fn run_job<T: Subject>(spec: &Spec<T>, cfg: &JobCfg) -> Acc {
                 }
             }
             acc.bump(if scratch.counters.contains_key("value/VIOLATION") { "json-text/VIOLATION" } else { "json-text/roundtrip-ok" });
-            if acc.sample.is_none() && cfg.part == 0 {
+            if acc.sample.is_none() && cfg.part == 0 && cfg.first.is_none() {
                 acc.sample = Some(json!({"type": spec.name, "value_from": src.describe(), "json": jtree::clip(&jtree::render(&j), 400)}));
             }
             for path in jtree::all_paths(&j) {
